@@ -157,7 +157,7 @@ def differential_side(plan, sim):
     for delimited in (True, False):
         if plan["source"] == "real":
             cfg = dict(plan["cfg"], delimited=delimited)
-            data = nodes.serialize(cfg, plan["ops"], None)
+            data = nodes.serialize_input(cfg, plan["ops"], None)
             physical = nodes.PHYS[cfg["physical"]]
             sim.count("real_writer_headers")
             got = hint(data[:3])
